@@ -21,13 +21,13 @@ def fields_at(s, r, t, names):
 def d5(fm2, fm1, fp1, fp2, h):
     return (fm2 - 8*fm1 + 8*fp1 - fp2) / (12*h)
 
-def residuals(s, r, t, k, heat, gamma_e=None):
+def residuals(s, r, t, k, heat, step=1e-3):
     """returns dict of normalised residuals (mass, momentum, energy) at point r,time t"""
     names = ['density', 'velocity', 'pressure', 'specific_internal_energy']
     if heat:
         names.append('temperature')
-    hr = 1e-3 * r
-    ht = 1e-3 * abs(t) if t != 0 else 1e-3
+    hr = step * r
+    ht = step * abs(t) if t != 0 else step
     rs = [r - 2*hr, r - hr, r, r + hr, r + 2*hr]
     at_t = fields_at(s, rs, t, names)
     tm = {}
@@ -53,13 +53,13 @@ def residuals(s, r, t, k, heat, gamma_e=None):
         hh = hr
         Fs = []
         for rc in [r - 2*hh, r - hh, r, r + hh, r + 2*hh]:
-            h2 = 1e-3 * rc
+            h2 = step * rc
             f = fields_at(s, [rc - 2*h2, rc - h2, rc, rc + h2, rc + 2*h2], t, ['density', 'temperature'])
             Tr = d5(f['temperature'][0], f['temperature'][1], f['temperature'][3], f['temperature'][4], h2)
             Fs.append(-K0 * f['density'][2]**alpha * f['temperature'][2]**(beta + 3) * Tr)
         Fr = d5(Fs[0], Fs[1], Fs[3], Fs[4], hh)
         terms += [Fr/rho, k*Fs[2]/r/rho]
-    out['energy'] = abs(sum(terms)) / (sum(abs(x) for x in terms) + 1e-9*(abs(e)+abs(P/rho))*(abs(u)/r + 1/abs(t if t else 1)) + 1e-300)
+    out['energy'] = abs(sum(terms)) / (sum(abs(x) for x in terms) + (abs(e)+abs(P/rho))*(abs(u)/r + 1/abs(t if t else 1)) + 1e-300)
     out['terms_energy'] = [float(x) for x in terms]
     return {k_: (float(v) if not isinstance(v, list) else v) for k_, v in out.items()}
 
@@ -69,7 +69,7 @@ def main(payload):
         mod = importlib.import_module(c['module'])
         try:
             s = getattr(mod, c['class'])(**c['params'])
-            res.append(residuals(s, c['r'], c['t'], c['k'], c.get('heat')))
+            res.append(residuals(s, c['r'], c['t'], c['k'], c.get('heat'), c.get('step', 1e-3)))
         except Exception as ex:
             res.append({'error': type(ex).__name__ + ': ' + str(ex)[:200]})
     return res
@@ -127,8 +127,27 @@ def pde_oracle(genfile, pfx, spec=None, rt=None, heat=None, kfun=None, thresh=1e
                               'normalised_residuals': {k_: o[k_] for k_ in ('mass', 'momentum', 'energy')},
                               'how': 'finite-difference residual of the returned fields in the documented PDE '
                                      '(5-point stencils, relative step 1e-3); threshold %g' % thresh})
-        fails.sort(key=lambda f: -max(f['normalised_residuals'].values()))
-        return fails
+        fails.sort(key=lambda f: -max(v for v in f['normalised_residuals'].values() if v == v))
+        # confirm every candidate at a second step size before reporting it
+        confirmed = []
+        if fails:
+            chk = []
+            for f in fails[:10]:
+                c = {'module': f['module'], 'class': f['solver'], 'params': f['params'], 'r': f['r'], 't': f['t'],
+                     'k': (kfun(f['params']) if kfun else float(f['params'].get('geometry', cj_fixed(cj, 'geometry', 3))) - 1),
+                     'step': 3e-4}
+                if heat:
+                    c['heat'] = list(heat(f['params']))
+                chk.append(c)
+            res2 = H.run_real(PDE_SCRIPT, chk)
+            for f, o2 in zip(fails[:10], res2):
+                if 'error' in o2:
+                    continue
+                v2 = [o2[k_] for k_ in ('mass', 'momentum', 'energy') if o2[k_] == o2[k_]]
+                if v2 and max(v2) > thresh:
+                    f['normalised_residuals_step_3e-4'] = {k_: o2[k_] for k_ in ('mass', 'momentum', 'energy')}
+                    confirmed.append(f)
+        return confirmed
     return oracle
 
 
